@@ -573,7 +573,9 @@ def check(pid, tier, seed):
             "translated_functions": len(re.findall(r'"', open(os.path.join(LEAN, "X86Model", "Generated", "SrcFns.lean")).read()
                                                  .split("def translated : List String := [")[-1].split("]")[0])) // 2,
             "untranslated": [l[len("gen_fns: UNTRANSLATED "):] for l in untranslated],
-            "tie_theorems": len([t for t in thms if t.startswith("X86.SrcTie.") or t.startswith("X86.RefBridge.")]),
+            "tie_theorems": len([t for t in thms if t.startswith("X86.SrcTie.") or t.startswith("X86.RefBridge.")
+                                 or t.startswith("X86.SrcModel.")]),
+            "third_voice_lines": sum(int((r["summary"] or {}).get("src", 0) or 0) for r in runs),
             "note": "Generated/SrcFns.lean is re-generated from /repo's source on this run; X86.SrcTie.* prove "
                     "generated = reference definition for all inputs, X86.RefBridge.* reference = Nat model; the "
                     "driver also evaluates the generated definitions on every protocol line (disagreement prefix `src`)",
